@@ -364,21 +364,54 @@ theorem toU32Sat_two_pow {k : ℕ} (hk : k ≤ 31) : toU32Sat (intToF32 ((2 ^ k 
   have : ((2 : ℚ) ^ k) = (((2 ^ k : ℕ) : ℤ) : ℚ) := by push_cast; rfl
   rw [this, Int.floor_intCast, Int.toNat_natCast]
 
-/-- `SamplerRepeatPot::new` accepts every power-of-two texture (up to `2^31` per side) and computes
-the masks `2^j − 1`, `2^k − 1`. -/
-theorem repeat_new_ok {j k : ℕ} (hj : j ≤ 31) (hk : k ≤ 31) :
+/-- `u32::is_power_of_two` of the model is "is `2^k` for some `k`". -/
+theorem isPow2_iff (n : ℕ) : isPow2 n = true ↔ ∃ k, n = 2 ^ k := by
+  constructor
+  · intro h
+    unfold isPow2 at h
+    simp only [Bool.and_eq_true, bne_iff_ne, ne_eq, beq_iff_eq] at h
+    exact (Nat.and_sub_one_eq_zero_iff_isPowerOfTwo h.1).1 h.2
+  · rintro ⟨k, rfl⟩; exact isPow2_two_pow k
+
+/-- `SamplerRepeatPot::new` accepts every power-of-two texture and computes the masks `2^j − 1`,
+`2^k − 1` (the test is on the integer dimensions since fix 597c789, so no size limit is involved). -/
+theorem repeat_new_ok (j k : ℕ) :
     RepeatPot.new (Texture.ofDims (2 ^ j) (2 ^ k)) = .ok ⟨2 ^ j - 1, 2 ^ k - 1⟩ := by
   unfold RepeatPot.new Texture.ofDims
-  simp only [toU32Sat_two_pow hj, toU32Sat_two_pow hk, isPow2_two_pow]
+  simp only [isPow2_two_pow]
   rfl
+
+/-- **repeat_new_rejects_non_pot.** `SamplerRepeatPot::new` succeeds *exactly* when both integer
+dimensions are powers of two – of any magnitude; every other size (empty textures included) panics,
+never a sampler with a wrong mask. -/
+theorem repeat_new_rejects_non_pot (w h : ℕ) :
+    (∃ s, RepeatPot.new (Texture.ofDims w h) = .ok s) ↔ ((∃ j, w = 2 ^ j) ∧ ∃ k, h = 2 ^ k) := by
+  rw [← isPow2_iff, ← isPow2_iff]
+  unfold RepeatPot.new Texture.ofDims
+  by_cases hw : isPow2 w = true
+  · by_cases hh : isPow2 h = true
+    · simp [hw, hh]
+    · simp [hw, hh]
+  · simp [hw]
+
+example : RepeatPot.new (Texture.ofDims 33554431 1) = .panic "width must be 2^n" := by decide +kernel
+
+/-- The repaired defect (597c789): the old test on the rounded `f32` width accepted the
+non-power-of-two width 33554431 (= 2^25 − 1, which rounds to 2^25) with mask 33554431 = width, so that
+`sample_abs` at `u = −1.0` indexed column 33554431, outside the texture. -/
+theorem repeat_new_old_accepts_non_pot :
+    RepeatPot.newViaF32 (Texture.ofDims 33554431 1) = .ok ⟨33554431, 0⟩ ∧
+    repeatSampleAbs ⟨33554431, 0⟩ (Texture.ofDims 33554431 1) 0xBF800000 0 = .panic "position out of bounds" ∧
+    isPow2 33554431 = false := by
+  decide +kernel
 
 /-- **repeat_never_panics.** On every power-of-two texture, for every pair of coordinate bit
 patterns, the repeating sampler returns a texel inside the texture. -/
-theorem repeat_never_panics {j k : ℕ} (hj : j ≤ 31) (hk : k ≤ 31) (u v : UInt32) :
+theorem repeat_never_panics (j k : ℕ) (u v : UInt32) :
     ∃ s iu iv, RepeatPot.new (Texture.ofDims (2 ^ j) (2 ^ k)) = .ok s ∧
       repeatSampleAbs s (Texture.ofDims (2 ^ j) (2 ^ k)) u v = .ok (iu, iv) ∧
       iu < 2 ^ j ∧ iv < 2 ^ k ∧ iu = repeatAxis (2 ^ j - 1) u ∧ iv = repeatAxis (2 ^ k - 1) v := by
-  refine ⟨_, _, _, repeat_new_ok hj hk, ?_, repeat_in_bounds j u, repeat_in_bounds k v, rfl, rfl⟩
+  refine ⟨_, _, _, repeat_new_ok j k, ?_, repeat_in_bounds j u, repeat_in_bounds k v, rfl, rfl⟩
   have h1 := repeat_in_bounds j u
   have h2 := repeat_in_bounds k v
   unfold repeatAxis at h1 h2
